@@ -15,7 +15,7 @@ EXTRACTS = ["C17"]
 THEOREMS = [
     "C17_merge_accepts", "C17_merge_extras_union", "C17_merge_comm", "C17_merge_assoc",
     "C17_merge_spelling", "C17_merge_refuses_other_project", "C17_reduce_keeps_bounds",
-]
+    "C17_reduce_one_requirement_per_project"]
 RULE = ("pairs/lists of requirements parsed by req_compile.utils.parse_requirement from generated "
         "strings (7 operators + wildcards, extras, 6 markers, respelled names); each is merged by "
         "the real merge_requirements/reduce_requirements and by the extracted Coq model; result "
@@ -123,6 +123,21 @@ def correspondence(ctx: Ctx) -> None:
     merge_cases = []
     for _ in range(nm):
         sa, sb = gen_req_str(rng, enc440), gen_req_str(rng, enc440)
+        if rng.random() < 0.3:
+            # the second requirement repeats a bound of the first with its version spelled with more / fewer trailing zeros
+            # (equal for every operator except ~=, where the number of release components matters)
+            try:
+                pa = U.parse_requirement(sa)
+                sp = rng.choice(sorted(pa.specifier, key=str))
+                import re as _re
+                if _re.fullmatch(r"\d+(\.\d+)*", sp.version) and sp.operator != "===":
+                    v = sp.version
+                    v2 = v + ".0" if rng.random() < 0.5 or not v.endswith(".0") else v[:-2]
+                    other = rng.choice(NAMES[:6]) + sp.operator + v2
+                    sa, sb = (sa, other) if rng.random() < 0.5 else (other, sa)
+                    ctx.count("merge:trailing-zero-twin:" + sp.operator)
+            except Exception:  # noqa: BLE001
+                pass
         r = rng.random()
         a = None if r < 0.03 else U.parse_requirement(sa)
         b = None if 0.02 < r < 0.05 else U.parse_requirement(sb)
@@ -231,9 +246,36 @@ def coq_recheck(ctx: Ctx, enc440, cases: List[Any]) -> None:
 
 # ---- independent oracle: the property statement on the implementation only --------------
 
+def near_versions(Version, reqs) -> List[Any]:
+    """versions around the requirements' own bounds: the bound, its neighbours in every release component, pre/post"""
+    out = []
+    for r in reqs:
+        for sp in r.specifier:
+            base = sp.version[:-2] if sp.version.endswith(".*") else sp.version
+            base = base.split("+")[0]
+            try:
+                rel = list(Version(base).release)
+            except Exception:  # noqa: BLE001
+                continue
+            cands = [base, base + ".0", base + ".1", base + ".post1", base + "a1" if base[-1].isdigit() else base]
+            for i in range(len(rel)):
+                up = rel[:i] + [rel[i] + 1]
+                cands.append(".".join(map(str, up)))
+                cands.append(".".join(map(str, up)) + ".0")
+                if rel[i] > 0:
+                    cands.append(".".join(map(str, rel[:i] + [rel[i] - 1] + [9])))
+            for c in cands:
+                try:
+                    out.append(Version(c))
+                except Exception:  # noqa: BLE001
+                    pass
+    return out
+
+
 def oracle_pair(U, enc440, Version, sa: str, sb: str, grid) -> Optional[str]:
     from packaging.utils import canonicalize_name
     a, b = U.parse_requirement(sa), U.parse_requirement(sb)
+    grid = list(grid) + near_versions(Version, [a, b])
     same = canonicalize_name(a.name) == canonicalize_name(b.name)
     kind, m = impl_merge(U, a, b)
     if not same:
@@ -260,6 +302,7 @@ def oracle_pair(U, enc440, Version, sa: str, sb: str, grid) -> Optional[str]:
 def oracle_list(U, enc440, Version, strs: List[str], grid) -> Optional[str]:
     from packaging.utils import canonicalize_name
     reqs = [U.parse_requirement(s) for s in strs]
+    grid = list(grid) + near_versions(Version, reqs)
     try:
         out = list(U.reduce_requirements(reqs))
     except ValueError:
